@@ -49,8 +49,12 @@ def buf_bytes(b):
   return None if b.data is None else bytes(np.asarray(b.data, dtype=np.uint8).tobytes())
 
 
-def quantize_both(mb, setup, stats):
-  """the same quantization through the ordinary and the large-model path"""
+def quantize_both(mb, setup, stats, prev=None):
+  """the same quantization through the ordinary and the large-model path.
+  With [prev] (a recipe list), the large-path Quantizer has ALREADY been used:
+  it first quantizes with prev (large path too), then the target recipe is
+  loaded into the same object and quantized — the serialiser must not carry
+  anything over from the earlier call."""
   outs = []
   for thr in (None, '-1'):
     if thr is None:
@@ -59,7 +63,18 @@ def quantize_both(mb, setup, stats):
       os.environ[THR] = thr
     try:
       qt = quantizer.Quantizer(bytearray(mb))
-      setup(qt)
+      if thr is not None and prev is not None:
+        probe = quantizer.Quantizer(bytearray(mb))
+        setup(probe)
+        target = copy.deepcopy(probe.get_quantization_recipe())
+        try:
+          qt.load_quantization_recipe(copy.deepcopy(prev))
+          qt.quantize(None)
+        except Exception:  # pylint: disable=broad-except
+          pass                   # (a recipe that needs statistics, or is refused: still a used object)
+        qt.load_quantization_recipe(target)
+      else:
+        setup(qt)
       outs.append(qt.quantize(copy.deepcopy(stats)).quantized_model)
     finally:
       os.environ.pop(THR, None)
@@ -239,7 +254,12 @@ def main():
     dist['cases'] += 1
     inp = {'recipe': desc, 'model_hex': mb.hex() if len(mb) < 30000 else None}
     try:
-      small, large = quantize_both(mb, setup, stats)
+      prev = None
+      if rng.random() < 0.4:       # the large-path Quantizer was used before, with another float recipe
+        prev = copy.deepcopy(ship[rng.choice(['dynamic_wi8_afp32_recipe', 'default_af32w8float_recipe',
+                                               'default_af32w4float_recipe'])])
+        dist['reused_quantizer'] += 1
+      small, large = quantize_both(mb, setup, stats, prev)
     except Exception as e:  # pylint: disable=broad-except
       dist['quantize_raises:' + cg.classify_raise(e)] += 1
       continue
